@@ -291,8 +291,9 @@ func init() {
 			for _, cfg := range []string{"flushy/bytewise", "deep/bytewise", "wide/bytewise"} {
 				specs = append(specs, seqSpec{Cfg: cfg, Alpha: c19Alpha, Depth: d, Checks: "db", Mode: "damage"})
 			}
-			// with a filter policy (and compression): tables that Recover rebuilds get filter blocks too
-			specs = append(specs, seqSpec{Cfg: "snappy/bytewise", Alpha: c19Alpha, Depth: d, Checks: "db", Mode: "damage"})
+			// with a filter policy, in tables of several blocks: a table that Recover rebuilds from its
+			// readable blocks gets a filter block too
+			specs = append(specs, seqSpec{Cfg: "widebloom/bytewise", Alpha: c19Alpha, Depth: d, Checks: "db", Mode: "damage"})
 			specs = append(specs, seqSpec{Cfg: "flushy/shortlex", Alpha: mustAlpha("shortlex"), Depth: d, Checks: "db", Probes: mustProbes("shortlex")})
 			// the zero-length key (its internal key is exactly the 8-byte trailer), values and
 			// tombstones, in tables that get rebuilt because another block of theirs is damaged
